@@ -123,7 +123,7 @@ theorem printNode_frame (tbl : Nat → Bool) : ∀ (n : Node) (ps ps' : PrintSta
         dsimp only at h
         split at h
         · cases h
-        · have f3 := printHead_frame tbl l _ _ h; fr_close
+        · have f3 := printHead_frame tbl _ l _ _ h; fr_close
         · have f3 := printBlock_frame tbl l _ _ h; fr_close
   | .builtin _ params, ps, ps', h => by
     unfold printNode at h
@@ -194,9 +194,13 @@ theorem printO_frame (tbl : Nat → Bool) : ∀ (o : Option Node) (ps ps' : Prin
   | none, _, _, h => by unfold printO at h; cases h
   | some n, ps, ps', h => by unfold printO at h; exact printNode_frame tbl n _ _ h
 
-theorem printHead_frame (tbl : Nat → Bool) : ∀ (l : List (Option Node)) (ps ps' : PrintState), printHead tbl l ps = .ok ps' → Frame ps ps'
+theorem printHead_frame (tbl : Nat → Bool) (sk : Bool) : ∀ (l : List (Option Node)) (ps ps' : PrintState), printHead tbl sk l ps = .ok ps' → Frame ps ps'
   | [], _, _, h => by unfold printHead at h; cases h; exact Frame.refl _
-  | x :: _, ps, ps', h => by unfold printHead at h; exact printO_frame tbl x _ _ h
+  | x :: xs, ps, ps', h => by
+    unfold printHead at h
+    split at h
+    · exact printHead_frame tbl sk xs _ _ h
+    · exact printO_frame tbl x _ _ h
 
 theorem printList_frame (tbl : Nat → Bool) : ∀ (l : List (Option Node)) (ps : PrintState) (i : Nat) (ps' : PrintState),
     printList tbl l ps i = .ok ps' → Frame ps ps'
